@@ -32,7 +32,7 @@ EPOCH = datetime.date(1970, 1, 1)
 
 PROVED = ["element_at", "try_element_at", "Column.getItem", "array_min", "array_max", "array_position", "factorial", "rint",
           "dayofweek", "overlay", "arrays_overlap", "array_union", "array_remove", "nanvl", "sequence", "date_add",
-          "date_sub", "dateadd", "levenshtein", "unix_millis", "slice", "array_append", "concat", "left", "right", "trunc", "date_trunc", "substr"]
+          "date_sub", "dateadd", "levenshtein", "unix_millis", "slice", "array_append", "concat", "left", "right", "trunc", "date_trunc", "substr", "soundex"]
 EMULATIONS_NOT_MODELLED = {
     "expm1": "EXP(x) - 1: a real-analytic identity; the floating-point loss near 0 is observed by T3 only",
     "log1p": "LN(x + 1): same",
@@ -176,6 +176,9 @@ def arg_value(a, row):
     e = a["e"]
     if e.startswith("F.col('") and e.endswith("')"):
         return row[cc.COLS.index(e[7:-2])]
+    if e.startswith("F.lit('") or e.startswith('F.lit("'):
+        import ast as _ast
+        return _ast.literal_eval(e[6:-1])
     if e == "F.lit(float('nan'))":
         return float("nan")
     if e == "F.lit(None).cast('double')":
@@ -270,6 +273,8 @@ def model_case(call, k, row, lookup):
         return f"(IOverlayN {olist(vals[0], codes)} {olist(vals[1], codes)} {zlit(pos)} {zlit(ln)})", "str"
     if is_null_row or any(v is None for v in vals):
         return None
+    if fn == "soundex" and isinstance(vals[0], str) and vals[0].isascii():
+        return f"(ISoundex {zl(codes(vals[0]))})", "str"
     if fn == "substr" and isinstance(vals[0], str) and all(isinstance(v, int) for v in vals[1:]) and vals[1] >= 0 and (len(vals) == 2 or vals[2] >= 0):
         return f"(ISubstr {zl(codes(vals[0]))} {zlit(vals[1])} {zlit(vals[2] if len(vals) == 3 else len(vals[0]) + 1)})", "str"
     if fn in ("left", "right") and isinstance(vals[0], str) and isinstance(vals[1], int):
@@ -494,7 +499,7 @@ def run(ctx: core.Ctx):
     flag_names = ["slice", "element_at", "try_element_at", "rint", "sequence", "unix_millis", "array_position(NULL)",
                   "nanvl(NULL)", "levenshtein(NULL)", "slice(negative start)", "factorial(outside 0..20)", "array_append(NULL)",
                   "array_union(NULL)", "overlay(NULL)", "concat(NULL)", "left/right(negative length)", "trunc/date_trunc unit spellings",
-                  "substr(position 0)"]
+                  "substr(position 0)", "soundex (strings starting with a letter)"]
     verdicts = {}
     if proved:
         outp = ctx.coq_eval("From Coq Require Import List Bool.\nFrom SF Require Import C17.Emul C17.Emul2 C17.EmulCheck.\nFrom Gen Require Import C17Facts.\n"
@@ -504,7 +509,7 @@ def run(ctx: core.Ctx):
                             "slice_rebase_exact c17_slice_rebase && slice_cfg_ok c17_slice; fact_guard_exact c17_fact_guard; c17_append_guard; "
                             "c17_union_guard; match c17_overlay_glue with GluePipes => true | _ => false end; "
                             "match c17_concat_glue with GluePipes => true | _ => false end; "
-                            "floor_exact c17_left_floor && floor_exact c17_right_floor; units_table_ok c17_trunc_units; remap_exact c17_substr_remap].",
+                            "floor_exact c17_left_floor && floor_exact c17_right_floor; units_table_ok c17_trunc_units; remap_exact c17_substr_remap; soundex_cfg_ok c17_soundex].",
                             "flags")
         import re as _re
         vals = _re.findall(r"\b(true|false)\b", outp.split("=", 1)[1] if "=" in outp else "")
